@@ -628,6 +628,15 @@ def check_generated_level(rep, r_kw, r_decl, r_tail, r_index, r_rec):
     rep.check(r_rec, key('recursion'), not bad,
               'recurses on (funcs[1:], params[1:], same inner name, same accumulating params_sofar, level + 1)' if not bad else
               'recursive call arguments deviate: %r' % bad, sinter, rc)
+    # the accumulating scope set is shared with the deeper levels (same object): the arguments of *this* level must be
+    # filtered before the recursion adds the provides of the levels below it
+    rec_st = stmt_of(sinter, rc)
+    ok = bool(use) and rec_st is not None and all(cfg.must_pass(cfg.nodes_of(u), cfg.entry, cfg.nodes_of(rec_st)) for u in use)
+    rep.check(r_rec, key('filter before recursion'), ok,
+              'the call arguments of a level are filtered by params_sofar before the recursive call extends that set' if ok else
+              'the recursive call (which adds deeper levels\' provides to the shared params_sofar) runs before this level\'s arguments are '
+              'filtered: a function is handed names that are only defined further inside (NameError in the generated code at request time)',
+              sinter, rec_st or main)
     # the rec text sits between def line and the return (checked through shape); and it is emitted inside the def
     return j
 
@@ -887,6 +896,38 @@ def check_accessors(rep, rule, kinds=True):
               'get_fb no longer rejects non-string argument names', sinter, gf.node)
 
 
+def check_middleware_identity(rep, rule):
+    """'mw in merged' / 'mw not in all_mw' decide duplicates through Middleware.__eq__: a duplicate is a middleware of
+    exactly the same *type* (not a subclass, not an instance comparison)."""
+    repo = rep.repo
+    core = repo.mod(CORE)
+    mw = core.cls('Middleware')
+    for name, want_eq in (('__eq__', True), ('__ne__', False)):
+        m = mw.methods.get(name)
+        ok = False
+        if m is not None:
+            rets = returns_of(m)
+            other = m.params()[1] if len(m.params()) > 1 else 'other'
+            if len(rets) == 1 and isinstance(rets[0].value, ast.Compare) and len(rets[0].value.ops) == 1:
+                c = rets[0].value
+                sides = {norm(c.left), norm(c.comparators[0])}
+                op = c.ops[0]
+                ok = sides == {'type(self)', 'type(%s)' % other} and \
+                    (isinstance(op, (ast.Eq, ast.Is)) if want_eq else isinstance(op, (ast.NotEq, ast.IsNot)))
+            elif len(rets) == 1 and isinstance(rets[0].value, ast.UnaryOp) and isinstance(rets[0].value.op, ast.Not) and not want_eq:
+                ok = norm(rets[0].value.operand) in ('self == %s' % other, 'self.__eq__(%s)' % other)
+        rep.check(rule, fkey(m, 'type identity') if m else '%s::Middleware.%s' % (CORE, name), ok,
+                  'Middleware.%s compares exact types' % name if ok else
+                  'Middleware.%s no longer compares type(self) with type(other) exactly: "unique type" de-duplication in merge_middlewares / '
+                  '_get_all_middlewares changes (e.g. a subclass counts as a duplicate of its base and a whole layer is dropped)' % name,
+                  core, m.node if m else mw.node)
+    ok = '__hash__' not in mw.methods or True
+    a = mw.class_attrs
+    ok = isinstance(a.get('unique'), ast.Constant) and a['unique'].value is True and isinstance(a.get('reorderable'), ast.Constant) and a['reorderable'].value is True
+    rep.check(rule, '%s::Middleware defaults' % CORE, ok, 'middlewares are unique and reorderable by default' if ok else
+              'Middleware.unique / reorderable defaults changed', core, mw.node)
+
+
 # ---------------------------------------------------------------------------------------------
 # R03.d: merge_middlewares and its call in BoundRoute.__init__
 # ---------------------------------------------------------------------------------------------
@@ -939,6 +980,7 @@ def check_merge_order(rep, rule):
                           for r in rz)
     rep.check(rule, fkey(fi, 'non-reorderable duplicate'), ok, 'a unique non-reorderable duplicate raises ValueError' if ok else
               'a unique non-reorderable duplicate is not rejected with ValueError', core, rz[0] if rz else fi.node)
+    check_middleware_identity(rep, rule)
     # call site
     bi = route.func('BoundRoute.__init__')
     calls = [c for c in walk_body(bi.node) if isinstance(c, ast.Call) and call_name(c) == 'merge_middlewares']
